@@ -199,10 +199,24 @@ def inrun(mon, rng):
             runchecks.check_pess(mon, tr, st)
 
 
+def inrun_ad(mon, rng):
+    from vmon import runchecks, runs
+
+    case, order = runs.make_ad_case(rng)
+    case["max_rounds"] = 50
+    tr = runs.run_ad_case(case, order, mon)
+    mon.count("inrun_runs")
+    for st in tr.steps:
+        if st["crash"] is None and not st.get("after_completion"):
+            runchecks.check_pess(mon, tr, st)
+
+
 def shard(mon, tier, rng, shard_no, nshards):
     n = max(6, N[tier] // nshards)
     for _ in range(3 if tier == "quick" else 60):
         inrun(mon, rng)
+    for _ in range(1 if tier == "quick" else 6):
+        inrun_ad(mon, rng)
     for i in range(n):
         r = rng.random()
         if r < 0.6:
